@@ -62,3 +62,24 @@ def validate(module: str, traces: list[dict], *, cfg: str | None = None, chunk: 
             verdict.add_tlc(res, f"trace-validation {module} {label} [{i}:{i + len(part)}]")
         f.unlink(missing_ok=True)
     return rejected
+
+
+def validate_total(module: str, traces: list[dict], on_reject, *, verdict=None, label: str = "",
+                   max_rounds: int = 12, **kw) -> int:
+    """Total verdicts: every event of every trace is judged.  on_reject(trace, pos) records the
+    violation and returns the remainder trace to re-validate (or None).  Remainders of one round are
+    validated together in the next round (one JVM start per round).  Returns #rejections."""
+    n_rej = 0
+    todo = traces
+    rounds = 0
+    while todo and rounds < max_rounds:
+        rounds += 1
+        rejected = validate(module, todo, verdict=verdict, label=f"{label} round {rounds}", **kw)
+        nxt = []
+        for tr, pos in rejected:
+            n_rej += 1
+            rest = on_reject(tr, pos)
+            if rest is not None and rest.get("ev"):
+                nxt.append(rest)
+        todo = nxt
+    return n_rej
